@@ -60,11 +60,18 @@ def run(tier):
         a = int(rng.randint(-3, 2))
         b = a + int(rng.randint(0, 3))
         ext_lo, ext_hi = int(rng.randint(0, 3)), int(rng.randint(0, 3))
+        if k % 5 == 4:
+            # the larger interval reaches beyond the image on one side or on both (no right pixel exists for its extreme disparities)
+            if k % 2 == 0:
+                ext_lo = cols + a + int(rng.randint(0, 3))
+            if k % 3 != 0:
+                ext_hi = cols - b + int(rng.randint(0, 3))
         cbca = (int(rng.randint(1, 4)), float([5.0, 30.0][k % 2])) if k % 3 == 1 else None
         base = dp.gen_problem(rng, rows=rows, cols=cols, win=win, s=s, measure=measure, disp=(a, b), vmax=3,
                               mask_mode=["none", "both", "left", "right"][k % 4], nbands=1)
         wide = dict(base, disp=("scalar", a - ext_lo, b + ext_hi))
-        feat = {"measure": measure, "win": win, "subpix": s, "cbca": bool(cbca), "interval": [a, b], "wider": [a - ext_lo, b + ext_hi]}
+        feat = {"measure": measure, "win": win, "subpix": s, "cbca": bool(cbca), "interval": [a, b], "wider": [a - ext_lo, b + ext_hi],
+                "wider_exceeds_image": bool(a - ext_lo <= -cols or b + ext_hi >= cols), "masks": ["none", "both", "left", "right"][k % 4]}
         try:
             cvn, cvw = mc_only(base, cbca), mc_only(wide, cbca)
         except Exception as exc:  # pylint: disable=broad-except
@@ -161,6 +168,39 @@ def run(tier):
             r.close()
         except Exception as exc:  # pylint: disable=broad-except
             chk.violation("total", dict(measure=measure, exception=type(exc).__name__), {"features": feat, "exception": repr(exc)[:300]}, f"pipeline raised: {feat}")
+    # ---- range, sparse maps: intervals that exclude 0, tall narrow images with whole invalid columns and few valid pixels, filling of
+    # occlusions / mismatches (a filled value comes from valid pixels, all of which lie in the interval) --------------------------------
+    nsparse = 40 if tier == "quick" else 400
+    for k in range(nsparse):
+        a = [3, -5, 2, -4][k % 4]
+        b = a + [2, 2, 1, 3][k % 4]
+        rows, cols = int(rng.randint(7, 12)), int(rng.randint(abs(a) + 3, abs(a) + 6))
+        prob = dp.gen_problem(rng, rows=rows, cols=cols, win=1, s=1, measure=["sad", "ssd"][k % 2], disp=(a, b), vmax=5, mask_mode="both")
+        for side in ("mL", "mR"):
+            m = np.where(rng.rand(rows, cols) < [0.6, 0.85][k % 2], 2, 0).astype(np.int16)
+            m[0, :] = 0                           # a valid first line ...
+            for c in rng.choice(cols, size=int(rng.randint(1, 4)), replace=False):
+                m[1:, c] = 2                      # ... above columns that are invalid down to the last line
+            prob[side] = m
+        glo, ghi = a, b
+        interp = ["sgm", "mc-cnn"][(k // 2) % 2]
+        steps = [("matching_cost", dp.mc_cfg(prob)), ("disparity", {"disparity_method": "wta", "invalid_disparity": [-9999, "NaN"][k % 2]}),
+                 ("validation", {"validation_method": "cross_checking_accurate", "cross_checking_threshold": 0.0, "interpolated_disparity": interp})]
+        cfg = {"pipeline": {nm: dict(c) for nm, c in steps}}
+        feat = {"measure": prob["measure"], "subpix": 1, "grid": False, "pipeline": [nm for nm, _ in steps], "interval": [glo, ghi], "sparse": True, "fill": interp}
+        chk.count(("range_sparse", rows, cols, a, b, interp, k))
+        try:
+            l, rr, _ = dp.run_pipeline(*dp.make_datasets(prob), cfg)
+        except Exception as exc:  # pylint: disable=broad-except
+            chk.violation("total", dict(measure=prob["measure"], exception=type(exc).__name__), {"features": feat, "exception": repr(exc)[:300]}, f"pipeline raised: {feat}")
+            continue
+        for tag, ds, lo, hi in (("L", l, glo, ghi), ("R", rr, -ghi, -glo)):
+            n += 1
+            cid = f"q{n}"
+            attr = [int(ds["disparity_interval"].data[0]), int(ds["disparity_interval"].data[1])] if "disparity_interval" in ds else [0, 0]
+            cases.append({"id": cid, "kind": "range", "rows": rows, "cols": cols, "per_pixel": False, "lo": lo, "hi": hi, "glo": lo, "ghi": hi, "attr": attr,
+                          "clause": "global_interval", "d3": milli(ds["disparity_map"].data), "vm": enc_int(ds["validity_mask"].data)})
+            meta[cid] = dict(feat, relation="range", after="validation", side=tag)
     verdicts = chk.tlc_cases("RelTrace", "RelTrace.cfg", cases, label="c09", chunk=60, parallel=12)
     compared = 0
     for cid, v in verdicts.items():
